@@ -13,8 +13,8 @@
   JSON-representable values (`okMembers`: finite numbers, keys strictly increasing = the map written
   key-sorted); `okFC`: such features, foreign members not named type / bbox / features.  For bson
   additionally `nonEmptyMulti` (`okVB`, `okFeatureB`, `okFCB`): no multi-geometry of length 0.
-  Where the pinned code falls short of the property the full statement stays visible as a
-  `def …_full : Prop` with its refutation next to it, and the part that holds is `…_partial`.
+  Where the code falls short of the property the full statement stays visible as a
+  `def …_full : Prop` with its refutation next to it.
 -/
 import OrbProofs.C02Lemmas
 import OrbProofs.C02FC
@@ -40,14 +40,14 @@ theorem geom_roundtrip_ptr (v : V) (hok : okV v = true) :
 def geom_roundtrip_full : Prop :=
   ∀ g : G, finiteG g = true → geomOfDoc .json (geomDoc .json (.val g)) = .ok (canonV (.val g))
 
-/-- … which is FALSE on the pinned tree: (a) a collection with an empty collection as a member is
-    written as `"geometries":[null]` and decoding that dereferences a nil `*Geometry`;
+/-- … which is FALSE: (a) a collection with an empty collection as a member is written as
+    `"geometries":[null]`, which the decoder rejects (invalid geometry);
     (b) a top-level empty collection is written as `null`, which `UnmarshalGeometry` rejects. -/
 theorem geom_roundtrip_full_false : ¬ geom_roundtrip_full := geom_roundtrip_full_false'
 
-theorem nested_empty_collection_panics (c : Codec) :
+theorem nested_empty_collection_rejected (c : Codec) :
     geomDoc c (.val (.collection [.collection []])) = nullMemberDoc ∧
-    (geomOfDoc c nullMemberDoc).isPanic = true := ⟨nested_empty_doc' c, null_member_panics' c⟩
+    geomOfDoc c nullMemberDoc = .err .invalid := ⟨nested_empty_doc' c, null_member_rejected' c⟩
 
 theorem empty_collection_rejected :
     geomOfDoc .json (geomDoc .json (.val (.collection []))) = .err .invalid := empty_collection_rejected'
@@ -103,51 +103,31 @@ theorem fc_remarshal_fixed (c : Codec) (x : FC) (hok : okFC x = true)
 
 /-! ### C05 (GeoJSON share): the decoders on arbitrary documents -/
 
-/-- the full totality statements: no decoder panics, whatever the document -/
-def geometry_total_full : Prop :=
-  ∀ (c : Codec) (j : Json), (geomOfDoc c j).isPanic = false ∧ (geomPtrOfDoc j).isPanic = false
-def feature_total_full : Prop :=
-  ∀ (c : Codec) (rawNull : Bool) (j : Json), (featureOfDoc c rawNull j).isPanic = false
-def fc_total_full : Prop :=
-  ∀ (c : Codec) (rawNull : Bool) (j : Json), (fcOfDoc c rawNull j).isPanic = false
+/-- no geometry decoder panics, whatever the document (json and bson; `UnmarshalGeometry` and
+    `json.Unmarshal` into a pointer) -/
+theorem geometry_total (c : Codec) (j : Json) :
+    (geomOfDoc c j).isPanic = false ∧ (geomPtrOfDoc j).isPanic = false := geometry_total' c j
 
-/-- FALSE on the pinned tree: `{"type":"GeometryCollection","geometries":[null]}` -/
-theorem geometry_total_full_false : ¬ geometry_total_full := fun h => by
-  have := (h .json nullMemberDoc).1
-  rw [null_member_panics' .json] at this
-  cases this
+/-- no feature decoder panics (`rawNull`: the input is exactly the bytes `null`) -/
+theorem feature_total (c : Codec) (rawNull : Bool) (j : Json) : (featureOfDoc c rawNull j).isPanic = false :=
+  feature_total' c rawNull j
 
-/-- FALSE: the same document as a feature's geometry — and a white-space padded `null` handed to
-    `UnmarshalFeature` (only the exact bytes `null` take the short cut) -/
-theorem feature_total_full_false : ¬ feature_total_full := fun h => by
-  have := h .json false .null
-  rw [feature_padded_null_panics'] at this
-  cases this
+theorem feature_ptr_total (j : Json) : (featurePtrOfDoc j).isPanic = false := feature_ptr_total' j
 
-theorem feature_null_member_panics (c : Codec) :
-    (featureOfDoc c false (.obj [("type", .str "Feature"), ("geometry", nullMemberDoc)])).isPanic = true :=
-  feature_null_member_panics' c
+/-- no feature-collection decoder panics -/
+theorem fc_total (c : Codec) (rawNull : Bool) (j : Json) : (fcOfDoc c rawNull j).isPanic = false :=
+  fc_total' c rawNull j
 
-theorem fc_total_full_false : ¬ fc_total_full := fun h => by
-  have := h .json false (.obj [("type", .str "FeatureCollection"),
-      ("features", .arr [.obj [("type", .str "Feature"), ("geometry", nullMemberDoc)]])])
-  rw [fc_null_member_panics' .json] at this
-  cases this
+theorem fc_ptr_total (j : Json) : (fcPtrOfDoc j).isPanic = false := fc_ptr_total' j
 
-/-- what holds: no decoder panics on a document none of whose arrays has a `null` element
-    (for `UnmarshalFeature`: and the document is not a padded `null`) -/
-theorem geometry_total_partial (c : Codec) (j : Json) (h : noNullElem j = true) :
-    (geomOfDoc c j).isPanic = false ∧ (geomPtrOfDoc j).isPanic = false := geometry_total_partial' c j h
+/-- the former crash witnesses are now errors / the null feature -/
+theorem null_member_rejected (c : Codec) : geomOfDoc c nullMemberDoc = .err .invalid := null_member_rejected' c
 
-theorem feature_total_partial (c : Codec) (rawNull : Bool) (j : Json) (h : noNullElem j = true)
-    (hn : rawNull = true ∨ isNull j = false ∨ c = .bson) : (featureOfDoc c rawNull j).isPanic = false :=
-  feature_total_partial' c rawNull j h hn
+theorem feature_null_member_rejected (c : Codec) :
+    featureOfDoc c false (.obj [("type", .str "Feature"), ("geometry", nullMemberDoc)]) = .err .invalid :=
+  feature_null_member_rejected' c
 
-theorem feature_ptr_total_partial (j : Json) (h : noNullElem j = true) :
-    (featurePtrOfDoc j).isPanic = false := feature_ptr_total_partial' j h
-
-theorem fc_total_partial (c : Codec) (rawNull : Bool) (j : Json) (h : noNullElem j = true) :
-    (fcOfDoc c rawNull j).isPanic = false := fc_total_partial' c rawNull j h
+theorem feature_padded_null : (featureOfDoc .json false .null).isOk = true := feature_padded_null'
 
 /-! ### non-vacuity -/
 
